@@ -531,6 +531,22 @@ func GenTrip(rng *rand.Rand, thorough bool, emit func(*Sx)) {
 		}
 	}
 
+	// ---- C16: the null reverse-path ----
+	for _, lmtp := range []bool{false, true} {
+		for _, from := range []string{""} {
+			for _, reject := range []bool{false, true} {
+				cfg := fullCfg(lmtp)
+				p := DefaultPlan()
+				if reject {
+					p.Ret = rejectErr()
+				}
+				calls := []TripCall{{Kind: "mail", Arg: from}, {Kind: "rcpt", Arg: "r1@x"}, {Kind: "rcpt", Arg: "r2@x"},
+					{Kind: "data", Parts: [][]byte{[]byte("bounce\r\n.dot\r\n")}, Closes: 1}, {Kind: "noop"}, {Kind: "quit"}}
+				emit(RunTrip(TripCase{Cfg: cfg, Script: Script{Data: []DataPlan{p}}, LMTP: lmtp, Calls: calls, Extra: []*Sx{L(A("focus"), A("C16"))}}))
+			}
+		}
+	}
+
 	// ---- C17: backend errors at the four callbacks ----
 	msgs := []string{"", " lead", "trail ", "5.1.1 looks like a code", "café", "one\ntwo", "one\ntwo\nthree", "550 5.1.1 x", "x\n\ny"}
 	ecs := [][3]int{{0, 0, 0}, {5, 1, 1}, {4, 2, 0}, {-1, -1, -1}}
